@@ -1,5 +1,5 @@
 (* C07/Model.v — executable model of STACK WIN evaluation (program strings and FPO).
-   Mirrors (as of commits e89b171, 07b228c and the revert 0819a3f):
+   Mirrors (as of commits e89b171, 07b228c, 1f8c3ef and the revert 0819a3f):
      breakpad-symbols/src/sym_file/walker.rs  eval_win_expr, win_frame_size, walk_with_stack_win_framedata,
                                               walk_with_stack_win_fpo, clear_stack_win_caller_registers
      breakpad-symbols/src/sym_file/parser.rs  stack_win_line (type / has_program consistency, on parsed fields),
@@ -151,7 +151,7 @@ Definition win_step (p : profile) (E : env) (t : bytes) (ms : vars * list winval
     end
   else if beq t T_undef then Ret (m, WUndef :: st)
   else if starts_var t then Ret (m, WVar t :: st)
-  else match parse_int 32 t with
+  else match parse_int 64 t with   (* i64::from_str since 1f8c3ef; truncated `as u32` *)
        | Some v => Ret (m, WInt (wrap32 v) :: st)
        | None => Fail
        end.
@@ -377,7 +377,7 @@ Definition win_lex (t : bytes) : wtok :=
   | _ =>
       if beq t T_undef then KUndef
       else if starts_var t then KVar t
-      else match parse_int 32 t with Some v => KLit v | None => KJunk end
+      else match parse_int 64 t with Some v => KLit v | None => KJunk end
   end.
 
 Definition wint (f : venv) (x : winval) : option Z :=
